@@ -60,20 +60,26 @@ fn wire_line(p: &(bool, u128, u8, u8, Vec<u8>)) -> String {
     format!("wire {} {} {} {}", p.1, p.2, p.3, hex(&p.4))
 }
 
-/// all `TOI="…"` attributes of the FDT XML, sorted
-fn fdt_tois(xml: &[u8]) -> Option<Vec<u128>> {
-    let s = std::str::from_utf8(xml).ok()?;
+/// the TOI attributes of the `File` entries of an FDT instance, sorted - read with flute's own FDT parser
+/// (`verif_hooks::fdt_parse_summary`), not by searching the text.  Err = the harness could not read the
+/// document at all (reported as a harness error, never as a silently empty list); Ok(None) = a TOI attribute is
+/// not a decimal u128.
+fn fdt_tois(xml: &[u8]) -> Result<Option<Vec<u128>>, String> {
+    let sum = flute::verif_hooks::fdt_parse_summary(xml).ok_or_else(|| "fdt-unparsable".to_string())?;
     let mut out = Vec::new();
-    let mut rest = s;
-    while let Some(i) = rest.find(" TOI=\"") {
-        let r = &rest[i + 6..];
-        let j = r.find('"')?;
-        out.push(r[..j].parse::<u128>().ok()?);
-        rest = &r[j..];
+    for f in sum.files.unwrap_or_default() {
+        match f.toi.parse::<u128>() {
+            Ok(v) => out.push(v),
+            Err(_) => return Ok(None),
+        }
     }
     out.sort();
-    Some(out)
+    Ok(Some(out))
 }
+
+/// what the last `admission` / refused `addfail` operation showed beyond the compared observation (samples for the
+/// evidence distribution, never compared with the model)
+static LAST_SAMPLE: std::sync::Mutex<String> = std::sync::Mutex::new(String::new());
 
 
 // ------------------------------------------------------------------------------------------------
@@ -115,30 +121,6 @@ fn parse_opt_str(tok: &str) -> Option<Option<String>> {
     } else {
         parse_str(tok).map(Some)
     }
-}
-
-fn b64(s: &str) -> Option<Vec<u8>> {
-    let mut out = Vec::new();
-    let (mut acc, mut bits) = (0u32, 0u32);
-    for c in s.bytes() {
-        let v = match c {
-            b'A'..=b'Z' => c - b'A',
-            b'a'..=b'z' => c - b'a' + 26,
-            b'0'..=b'9' => c - b'0' + 52,
-            b'+' => 62,
-            b'/' => 63,
-            b'=' => continue,
-            _ => return None,
-        } as u32;
-        acc = (acc << 6) | v;
-        bits += 6;
-        if bits >= 8 {
-            bits -= 8;
-            out.push((acc >> bits) as u8);
-            acc &= (1 << bits) - 1;
-        }
-    }
-    Some(out)
 }
 
 /// reason token of an `add_object` error (the text of the FluteError names the check that refused)
@@ -239,30 +221,44 @@ fn admit(t: &[&str], _o: &mut Oracle) -> String {
         obj.transfer_length = len;
         obj.md5 = md5.clone();
         let res = sender.add_object(prio, obj);
+        let reason;
         let out = match res {
             Ok(toi) => {
-                // Z as announced in the File entry of the FDT
-                let xml = sender.fdt_xml_data(now()).ok().and_then(|x| String::from_utf8(x).ok()).unwrap_or_default();
-                let z = xml.find("<File ").and_then(|i| {
-                    let f = &xml[i..];
-                    let j = f.find("FEC-OTI-Scheme-Specific-Info=\"")?;
-                    let r = &f[j + 30..];
-                    let k = r.find('"')?;
-                    let ssi = b64(&r[..k])?;
-                    let fec = ovr.as_ref().unwrap_or(&dflt).fec_encoding_id as u8;
-                    match (fec, ssi.len()) {
-                        (6, 4) => Some(ssi[0] as u32),
-                        (1, 4) => Some(((ssi[0] as u32) << 8) | ssi[1] as u32),
-                        _ => None,
-                    }
-                });
+                // Z as announced for the File entry of the FDT, read with flute's own FDT parser
+                let xml = match sender.fdt_xml_data(now()) {
+                    Ok(x) => x,
+                    Err(_) => return Some("HARNESS-ERROR fdt-xml".to_string()),
+                };
+                let sum = match flute::verif_hooks::fdt_parse_summary(&xml) {
+                    Some(s) => s,
+                    None => return Some("HARNESS-ERROR fdt-unparsable".to_string()),
+                };
+                let files = sum.files.unwrap_or_default();
+                if files.len() != 1 || files[0].toi != toi.to_string() {
+                    return Some("HARNESS-ERROR fdt-file-entry".to_string());
+                }
+                let fec = ovr.as_ref().unwrap_or(&dflt).fec_encoding_id as u8;
+                let z = match (fec, files[0].oti_ss) {
+                    (6, Some((1, z, _, _))) => Some(z),
+                    (1, Some((2, z, _, _))) => Some(z),
+                    _ => None,
+                };
                 sender.remove_object(toi);
+                reason = "-";
                 format!("ok z={}", z.map(|z| z.to_string()).unwrap_or("-".to_string()))
             }
-            Err(e) => format!("ERR {}", refuse_reason(&e.0.to_string())),
+            Err(e) => {
+                // which check refused is a SAMPLE (evidence distribution), decided from the error text; the
+                // compared observation is the bare `ERR`
+                reason = refuse_reason(&e.0.to_string());
+                "ERR".to_string()
+            }
         };
+        // does the call consume a TOI value? (allocation policy: sampled, not compared)
         let next = sender.allocate_toi().get();
-        Some(format!("{} next={}", out, next))
+        let base: u128 = if t[5] == "own" { 2 } else { 1 };
+        *LAST_SAMPLE.lock().unwrap() = format!("reason={} consumed={}", reason, if next > base { 1 } else { 0 });
+        Some(out)
     }));
     match r {
         Ok(Some(s)) => s,
@@ -295,6 +291,10 @@ pub struct Session {
     foreign: BTreeSet<u128>,
     /// names of objects added with a carousel mode
     carousel: BTreeSet<u64>,
+    /// after a refused add_object without TOI handle: the value the allocator hands out next (one allocate + drop),
+    /// i.e. whether the refused call consumed a TOI value - an allocation POLICY C15 does not constrain; the model
+    /// takes it as an input (`probe <v>`)
+    last_probe: Option<u128>,
     /// number of live TOIs, published before every call that may not return
     live_count: Arc<AtomicU64>,
 }
@@ -306,6 +306,7 @@ impl Session {
             tainted: std::cell::Cell::new(false),
             foreign: BTreeSet::new(),
             carousel: BTreeSet::new(),
+            last_probe: None,
             sender: None,
             bits: 16,
             tsi: 0,
@@ -486,7 +487,21 @@ impl Session {
                 self.leak();
                 "PANIC".to_string()
             }
-            Ok(Err(_)) => "ERR".to_string(),
+            Ok(Err(_)) => {
+                if explicit.is_none() {
+                    // refused after / before the implicit allocation?  look at the next value (allocate + drop)
+                    match self.alloc(false, o) {
+                        Ok(h) => self.last_probe = Some(h.get()),
+                        Err(loc) => {
+                            o.fail("alloc-panic", &format!("allocate_toi panics at {}", loc));
+                            self.dead = true;
+                            self.leak();
+                            return "PANIC".to_string();
+                        }
+                    }
+                }
+                "ERR".to_string()
+            }
             Ok(Ok(v)) => {
                 match explicit {
                     Some(e) => {
@@ -611,6 +626,11 @@ impl Session {
                 }
                 "ok".to_string()
             }
+            ("lastsample", 2) => LAST_SAMPLE.lock().unwrap().clone(),
+            ("lastprobe", 2) => match self.last_probe {
+                Some(v) => format!("{}", v),
+                None => "-".to_string(),
+            },
             ("peek", 2) => match self.peeked {
                 // not an operation of the protocol: lets the generator learn the random start value
                 Some(v) => format!("{}", v),
@@ -767,6 +787,18 @@ impl Session {
                     _ => return "bad-op".to_string(),
                 };
                 self.add(k, t[1] == "addfail", None, o)
+            }
+            ("probe", 3) => {
+                // refinement input for the model (see `last_probe`); the implementation already did the probe
+                let v = match t.get(2).and_then(|x| x.parse::<u128>().ok()) {
+                    Some(v) => v,
+                    None => return "bad-op".to_string(),
+                };
+                match self.last_probe.take() {
+                    Some(p) if p == v => "ok".to_string(),
+                    Some(p) => format!("probe-differs {}", p),
+                    None => "bad-op".to_string(),
+                }
             }
             ("addc", 3) => {
                 let k = match num(2) {
@@ -969,11 +1001,14 @@ impl Session {
                     Err(_) => return "ERR".to_string(),
                 };
                 let got = match fdt_tois(&xml) {
-                    Some(g) => g,
-                    None => {
+                    Ok(Some(g)) => g,
+                    Ok(None) => {
                         o.fail("fdt-toi-unparsable", "a TOI attribute of the FDT is not a decimal u128");
                         return "ERR".to_string();
                     }
+                    // flute's own parser rejects the sender's FDT: not C15's business, but the harness must not
+                    // go on with an empty list
+                    Err(e) => return format!("HARNESS-ERROR {}", e),
                 };
                 // what the API user knows to be in the FDT
                 let mut want: Vec<u128> = self
@@ -1150,8 +1185,13 @@ impl Engine for ToiEngine {
         if t.len() >= 3 && t[1] == "new" {
             self.bits = t[2].parse().unwrap_or(0);
         }
-        let long = t.len() >= 2 && (t[1] == "churn" || t[1] == "allocn");
-        let timeout = Duration::from_secs(if long { 30 } else { 10 });
+        // Wall-clock margin of one operation: generous (VERIF_OP_TIMEOUT seconds, default 120) so that a slow or
+        // loaded machine is not mistaken for a call that never returns.  Only where the hang is the EXPECTED
+        // observation (ToiMax16, 65534 live TOIs: the model says `hang`) a short wait is used.
+        let base: u64 = std::env::var("VERIF_OP_TIMEOUT").ok().and_then(|x| x.parse().ok()).unwrap_or(120);
+        let expect_hang = self.bits == 16 && self.live_count.load(Ordering::SeqCst) == 65534
+            && t.len() >= 2 && matches!(t[1], "alloc" | "alloct" | "add" | "addc" | "addfail" | "freerun" | "churn" | "allocn");
+        let timeout = Duration::from_secs(if expect_hang { 10 } else { base });
         if self.tx.as_ref().unwrap().send(op.to_string()).is_err() {
             self.dead = true;
             return "DEAD".to_string();
@@ -1168,18 +1208,22 @@ impl Engine for ToiEngine {
                 HANGS.fetch_add(1, Ordering::SeqCst);
                 let live = self.live_count.load(Ordering::SeqCst);
                 if self.bits == 16 && live == 65534 {
-                    // exactly the excluded case of `allocate_terminates`: this call takes the last free value
+                    // OBSERVATION outside C15 (no termination clause): this call takes the last free value and the
+                    // skip loop never exits; the model answers `hang` too (Props.C15.allocate_hangs_on_last_free)
                     o.fail(
                         "toi16-exhausted-hang",
                         "ToiMax16 with 65534 live TOIs: the allocate_toi call taking the last free value does not return (skip loop never exits)",
                     );
+                    "HANG".to_string()
                 } else {
-                    o.fail(
-                        "alloc-hang",
-                        &format!("a call into the sender did not return within {:?} ({} live TOIs, {} bit)", timeout, live, self.bits),
+                    // not a statement about C15: a harness note; the line disagrees with the model (`TIMEOUT`
+                    // is never a model answer), which is reported as a correspondence break without failing input
+                    eprintln!(
+                        "harness note: no answer within {:?} for `{}` ({} live TOIs, {} bit) - slow machine (raise VERIF_OP_TIMEOUT) or a call that does not return",
+                        timeout, op, live, self.bits
                     );
+                    "TIMEOUT".to_string()
                 }
-                "HANG".to_string()
             }
             Err(RecvTimeoutError::Disconnected) => {
                 self.dead = true;
@@ -1334,7 +1378,14 @@ fn sequence(ctx: &mut Ctx, eng: &mut dyn Engine, rng: &mut Rng, bits: u32, init:
         } else {
             format!("toi churn {}", rng.range(1, 40))
         };
-        let obs = ctx.step(eng, &op);
+        let mut obs = ctx.step(eng, &op);
+        if op.starts_with("toi addfail ") && obs == "ERR" {
+            // tell the model what the allocator handed out next (did the refused call consume a TOI value?)
+            let mut o = Oracle::default();
+            let p = eng.exec("toi lastprobe", &mut o);
+            obs = ctx.step(eng, &format!("toi probe {}", p));
+            total_allocated += 1;
+        }
         let kind = op.split(' ').nth(1).unwrap_or("").to_string();
         ctx.count(&format!("op={}", kind));
         kinds.insert(kind);
@@ -1457,7 +1508,11 @@ impl Zone {
             2 => {
                 let k = self.name();
                 if !keep && rng.bool() {
-                    self.step(ctx, eng, &format!("toi addfail {}", k));
+                    if self.step(ctx, eng, &format!("toi addfail {}", k)) == "ERR" {
+                        let mut o = Oracle::default();
+                        let p = eng.exec("toi lastprobe", &mut o);
+                        self.step(ctx, eng, &format!("toi probe {}", p));
+                    }
                     return;
                 }
                 let car = keep && rng.chance(1, 3);
@@ -1681,12 +1736,15 @@ fn admit_cases(ctx: &mut Ctx, eng: &mut dyn Engine, rng: &mut Rng, nrandom: usiz
     let issue = |ctx: &mut Ctx, eng: &mut dyn Engine, op: String| {
         let obs = ctx.step(eng, &op);
         ctx.evaluations += 1;
+        // which check refused and whether a TOI value was consumed: samples, not compared with the model
+        let mut o = Oracle::default();
+        let sample = eng.exec("toi lastsample", &mut o);
         let key = if obs.starts_with("ok") {
             "admit=ok".to_string()
-        } else if obs.starts_with("ERR ") {
-            format!("admit=ERR {}", obs.split(' ').nth(1).unwrap_or(""))
+        } else if obs == "ERR" {
+            format!("admit=ERR {}", sample)
         } else {
-            format!("admit={}", obs)
+            format!("admit={}", obs.split(' ').next().unwrap_or(""))
         };
         ctx.count(&key);
     };
@@ -1835,10 +1893,10 @@ pub fn run(ctx: &mut Ctx, eng: &mut dyn Engine) {
     'gen: for rep in 0..reps {
         for bits in WIDTHS {
             for (i, init) in start_values(bits, &mut rng).into_iter().enumerate() {
-                if HANGS.load(Ordering::SeqCst) >= 2 {
+                if HANGS.load(Ordering::SeqCst) >= 1 {
                     // every hang is already reported (VIOLATION) and leaves a spinning thread behind:
                     // stop generating histories instead of collecting time-outs
-                    ctx.count("generation-stopped-after-2-hangs");
+                    ctx.count("generation-stopped-after-a-timeout");
                     break 'gen;
                 }
                 let nops = if rep == 0 { 300 } else { rng.range(5, 300) as usize };
@@ -1849,8 +1907,8 @@ pub fn run(ctx: &mut Ctx, eng: &mut dyn Engine) {
     }
     let nz = if ctx.tier_thorough { 1000 } else { 150 };
     for i in 0..nz {
-        if HANGS.load(Ordering::SeqCst) >= 2 {
-            ctx.count("generation-stopped-after-2-hangs");
+        if HANGS.load(Ordering::SeqCst) >= 1 {
+            ctx.count("generation-stopped-after-a-timeout");
             break;
         }
         wrapzone(ctx, eng, &mut rng, &format!("wrapzone-{}", i));
